@@ -266,6 +266,7 @@ def run(ctx):
     import_grouping_is_a_partition(ctx, "R03-j")
     single_line_bodies_have_no_comment(ctx, "R03-k")
     doc_openers_are_recognised_as_the_lexer_does(ctx, "R03-l")
+    every_statement_is_visited(ctx, "R03-m")
     D = r.rule("R03-d", "lists::write_list (with the closures it owns) reads every comment-bearing field of ListItem: "
                         "pre_comment, pre_comment_style, post_comment, new_lines")
     wl = p.named("write_list", within="rustfmt_nightly::lists")
@@ -707,3 +708,62 @@ def doc_openers_are_recognised_as_the_lexer_does(ctx, rid):
                               "`////…` / `/***…` / `/**/`: with normalize_comments `/*** x */` becomes the doc comment `/// * x`",
                     ["%s:%d" % (f.file, f.line)])
     r.floor(rid, n, 2, "feasible paths of comment_style that answer TripleSlash")
+
+
+def every_statement_is_visited(ctx, rid):
+    """R03-m: walk_stmts hands on the rest of the statement list without stepping over an element"""
+    from common import blocks_dominate, rvalue_operands
+    p, r = ctx.p, ctx.r
+    r.rule(rid, "FmtVisitor::walk_stmts visits the statements of a block front to back and calls itself on the rest: "
+                "`walk_stmts(&stmts[k..], ..)`. The text between two statements — blank lines and comments — is emitted by the "
+                "visit of the *next* statement (format_missing up to its start), so a statement that is stepped over takes the "
+                "comments before it along. At every self-call whose slice starts at a constant k, at least k calls of "
+                "visit_stmt dominate the call (k = 1 after `visit_stmt(&stmts[0])`); a start that is not a constant is the "
+                "length of the item list handed to visit_items_with_reordering on the same path")
+    fs = [g for g in p.by_crate["rustfmt_nightly"] if g.id.endswith("FmtVisitor::<'a>::walk_stmts")]
+    if len(fs) != 1:
+        r.undecidable(rid, "FmtVisitor::walk_stmts not found")
+        return
+    f = fs[0]
+    visits = [c for c in f.calls() if c.name.endswith("::visit_stmt")]
+    reorder = [c for c in f.calls() if c.name.endswith("::visit_items_with_reordering")]
+    n = 0
+    for c in f.calls():
+        if c.name != f.id:
+            continue
+        n += 1
+        a = c.args[1] if len(c.args) > 1 else None
+        d = f.derived_from(a[1][0]) if a and a[0] != "k" else {"calls": [], "consts": []}
+        idx = [x for x in d["calls"] if "ops::Index<" in x.name and x.name.endswith("::index")]
+        start = None
+        kind = "unknown"
+        if len(idx) == 1 and len(idx[0].args) > 1 and idx[0].args[1][0] != "k":
+            for bb, k_, st in f.defs().get(idx[0].args[1][1][0], []):
+                if k_ == "assign" and not isinstance(st, Call) and st[2][0] == "agg" and "RangeFrom" in str(st[2][1]):
+                    op = st[2][2][0]
+                    if op[0] == "k":
+                        start, kind = op[2], "const"
+                    else:
+                        dd = f.derived_from(op[1][0])
+                        if any(x.name.endswith("Vec::<T, A>::len") or x.name.endswith("::len") for x in dd["calls"]):
+                            kind = "len"
+        elif not idx and a and a[0] != "k":
+            kind = "whole"
+        dom_visits = [v for v in visits if blocks_dominate(f, [v.bb], c.bb)]
+        if kind == "const":
+            ok = isinstance(start, int) and start <= len(dom_visits)
+            detail = "stmts[%s..] after %d visit_stmt call(s)" % (start, len(dom_visits))
+        elif kind == "len":
+            ok = any(blocks_dominate(f, [v.bb], c.bb) for v in reorder)
+            detail = "stmts[<len>..] after visit_items_with_reordering: %s" % ok
+        else:
+            ok = False
+            detail = "slice start not understood (%s)" % kind
+            r.undecidable(rid, "walk_stmts: the slice of a self-call is neither stmts[k..] nor stmts[items.len()..]")
+            continue
+        r.instance(rid, "walk_stmts → walk_stmts(%s)" % detail, "ok" if ok else "violation", c.loc())
+        if not ok:
+            r.violation(rid, "walk_stmts steps over a statement (%s)" % detail,
+                        "the rest of the list starts behind a statement nobody visited: its text and the comments in front of "
+                        "it are never emitted (`struct S; // note` + `;` loses `// note`)", [c.loc()])
+    r.floor(rid, n, 2, "self-calls of walk_stmts")
